@@ -73,7 +73,11 @@ class Obj(Engine):
         h = rng.randrange(MAXH)
         if r < 0.10:
             kind = rng.choice(['tx', 'tx', 'tx', 'txin', 'txout', 'outpoint', 'header'])
-            return {'op': 'new', 'kind': kind, 'mutable': rng.random() < 0.6, 'spec': self._gen_spec(rng, kind)}
+            a = {'op': 'new', 'kind': kind, 'mutable': rng.random() < 0.6, 'spec': self._gen_spec(rng, kind)}
+            if kind == 'tx' and rng.random() < 0.2:
+                # the same input / output OBJECT at two positions of an immutable transaction (vout=[out] * 2)
+                a['alias'] = [rng.choice(['vin', 'vout', 'vout']), i, j]
+            return a
         if r < 0.30:
             f = rng.choice(['nVersion', 'nLockTime', 'vin.nSequence', 'vin.scriptSig', 'vin.prevout.n', 'vin.prevout.hash', 'vin.prevout',
                             'vout.nValue', 'vout.scriptPubKey', 'nSequence', 'scriptSig', 'prevout.n', 'prevout.hash', 'prevout', 'nValue', 'scriptPubKey', 'hash', 'n'])
@@ -143,6 +147,15 @@ class Obj(Engine):
         for _ in range(n):
             a = self._gen_op(rng)
             steps.append({'t': 0.0, 'prio': 0, 'party': 0, 'op': a['op'], 'args': a})
+            if a.get('alias') and not a['mutable'] and rng.random() < 0.7:
+                # ... of which a fully mutable copy is taken and edited at one of the two positions
+                part = a['alias'][0]
+                f = rng.choice(['vout.nValue', 'vout.scriptPubKey'] if part == 'vout' else ['vin.nSequence', 'vin.scriptSig', 'vin.prevout.n', 'vin.prevout'])
+                n_el = max(1, len(a['spec'][part]))
+                for b in ({'op': 'mcopy', 'h': -1, 'part': 'self', 'i': 0, 'via': 'from'},
+                          {'op': 'set', 'h': -1, 'field': f, 'i': a['alias'][rng.choice([1, 2])] % n_el, 'value': self._gen_value(rng, f)},
+                          {'op': 'ids', 'h': -1}):
+                    steps.append({'t': 0.0, 'prio': 0, 'party': 0, 'op': b['op'], 'args': b})
         return {'engine': self.name, 'property': [prop], 'config': {}, 'steps': steps}
 
     # systematic preamble: all histories of length <= 3 over a reduced alphabet on a fixed initial pool
@@ -221,6 +234,7 @@ class Obj(Engine):
         self.C, self.S, self.SE = C, S, SE
         self.ctx = ctx
         self.pool = []
+        self.last = 0
         self.interacted = False
         try:
             for i, st in enumerate(plan['steps']):
@@ -264,12 +278,20 @@ class Obj(Engine):
     def _add(self, h):
         if len(self.pool) < MAXH:
             self.pool.append(h)
-            return len(self.pool) - 1
+            self.last = len(self.pool) - 1
+            return self.last
         k = (len(self.pool) + self.ctx.steps) % MAXH
         if k == 0:
             k = 1
         self.pool[k] = h
+        self.last = k
         return k
+
+    def _hidx(self, h):
+        """-1 names the handle added most recently (follow-up operations of a generated scenario)."""
+        if h == -1:
+            return getattr(self, 'last', 0) % len(self.pool)
+        return h % len(self.pool)
 
     def _build(self, kind, mutable, spec):
         C = self.C
@@ -303,8 +325,19 @@ class Obj(Engine):
             if kind in ('header', 'block'):
                 mut = False
             spec = copy.deepcopy(a['spec'])
+            al = a.get('alias') if (kind == 'tx' and not mut) else None
+            if al and len(spec[al[0]]) >= 2 and al[1] % len(spec[al[0]]) != al[2] % len(spec[al[0]]):
+                n = len(spec[al[0]])
+                spec[al[0]][al[2] % n] = copy.deepcopy(spec[al[0]][al[1] % n])
+            else:
+                al = None
             try:
                 obj = self._build(kind, mut, spec)
+                if al:
+                    lists = {'vin': list(obj.vin), 'vout': list(obj.vout)}
+                    lists[al[0]][al[2] % n] = lists[al[0]][al[1] % n]
+                    obj = C.CTransaction(lists['vin'], lists['vout'], obj.nLockTime, obj.nVersion, obj.wit)
+                    ctx.fault('one-element-object-at-two-positions')
             except Exception as e:
                 ctx.check(False, 'C09.ser', 'constructing %s raised %s' % (kind, type(e).__name__), kind=kind)
                 return None
@@ -312,7 +345,7 @@ class Obj(Engine):
             log('%s/%s' % (kind, 'm' if mut else 'i'), k)
             return k
         if op == 'set':
-            hidx = a['h'] % len(self.pool)
+            hidx = self._hidx(a['h'])
             h = self.pool[hidx]
             path = a['field'].split('.')
             # resolve the container object and the model dict
@@ -368,7 +401,7 @@ class Obj(Engine):
             log(a['field'], hidx)
             return hidx
         if op in ('vin_append', 'vin_replace', 'vin_remove', 'vout_append', 'vout_replace', 'vout_remove'):
-            hidx = a['h'] % len(self.pool)
+            hidx = self._hidx(a['h'])
             h = self.pool[hidx]
             if h.kind != 'tx' or not h.mutable:
                 log('skip')
@@ -408,7 +441,7 @@ class Obj(Engine):
             log(act, [hidx, which])
             return hidx
         if op == 'wit':
-            hidx = a['h'] % len(self.pool)
+            hidx = self._hidx(a['h'])
             h = self.pool[hidx]
             if h.kind != 'tx' or not h.mutable:
                 log('skip')
@@ -481,7 +514,7 @@ class Obj(Engine):
             log(how, hidx)
             return hidx
         if op in ('snapshot', 'mcopy'):
-            hidx = a['h'] % len(self.pool)
+            hidx = self._hidx(a['h'])
             h = self.pool[hidx]
             to_mut = op == 'mcopy'
             part = a['part']
@@ -575,7 +608,7 @@ class Obj(Engine):
         if op == 'retype':
             # the containers of a mutable transaction are whatever sequence the caller handed in:
             # a tuple of mutable inputs is as legitimate as a list
-            hidx = a['h'] % len(self.pool)
+            hidx = self._hidx(a['h'])
             h = self.pool[hidx]
             if h.kind != 'tx' or not h.mutable:
                 log('skip')
@@ -587,7 +620,7 @@ class Obj(Engine):
             log(a['which'], a['to'])
             return hidx
         if op == 'badset':
-            hidx = a['h'] % len(self.pool)
+            hidx = self._hidx(a['h'])
             h = self.pool[hidx]
             if h.kind != 'tx' or not h.mutable:
                 log('skip')
@@ -623,7 +656,7 @@ class Obj(Engine):
             log(f, hidx)
             return hidx
         if op == 'rt':
-            hidx = a['h'] % len(self.pool)
+            hidx = self._hidx(a['h'])
             h = self.pool[hidx]
             enc = a.get('enc', 'canon')
             raw = None
@@ -695,7 +728,7 @@ class Obj(Engine):
             log('ntx%d' % len(txs), k2)
             return k2
         if op == 'ids':
-            hidx = a['h'] % len(self.pool)
+            hidx = self._hidx(a['h'])
             h = self.pool[hidx]
             # plant caches; values are checked by the invariants below
             try:
@@ -736,7 +769,7 @@ class Obj(Engine):
             log('cmp')
             return None
         if op == 'frozen':
-            hidx = a['h'] % len(self.pool)
+            hidx = self._hidx(a['h'])
             h = self.pool[hidx]
             targets = self._immutable_parts(h)
             if not targets:
@@ -779,7 +812,7 @@ class Obj(Engine):
             log(type(tgt).__name__, a['how'])
             return None
         if op == 'sighash':
-            hidx = a['h'] % len(self.pool)
+            hidx = self._hidx(a['h'])
             h = self.pool[hidx]
             if h.kind != 'tx' or not len(h.model['vin']):
                 log('skip')
@@ -799,7 +832,7 @@ class Obj(Engine):
             log('h', hidx)
             return None
         if op == 'verify':
-            hidx = a['h'] % len(self.pool)
+            hidx = self._hidx(a['h'])
             h = self.pool[hidx]
             if h.kind != 'tx' or not len(h.model['vin']):
                 log('skip')
